@@ -88,11 +88,11 @@ def hypothesis_run(ctx):
     # half of the wall budget for histories, half for variants
     total = ctx.budget_s
     ctx.budget_s = total * 0.45
-    _hist.run_machine(ctx, CanonMachine, 350 if quick else 5000, 12 if quick else 30)
+    _hist.run_machine(ctx, CanonMachine, 350 if quick else 9000, 12 if quick else 30)
     if ctx.target is not None:
         return
     ctx.budget_s = total
-    n = (1600 if quick else 20000) // ctx.nshards
+    n = (1600 if quick else 36000) // ctx.nshards
 
     @hypothesis.seed(ctx.seed * 1000 + ctx.shard + 500)
     @settings(max_examples=max(1, n), deadline=None, database=None, derandomize=False, report_multiple_bugs=False,
